@@ -1,6 +1,6 @@
 """C22 - collection filters satisfy their documented contracts.
 
-Specs: spec/FVal.tla (value algebra), spec/SeqFilters.tla (the contracts, written from
+Specs: spec/FVal.tla (value algebra), spec/SeqCalls.tla (call sequences, object heap), spec/SeqFilters.tla (the contracts, written from
 the documentation), spec/SeqFiltersMC.tla (TLC checks on every sequence of a bounded
 domain that the contract functions satisfy the clauses of the property and that the
 code-shaped batch / slice loops refine them), spec/SeqFiltersTrace.tla (validation of
@@ -34,6 +34,9 @@ PID = "C22"
 
 INVS = ["C22_BatchLoop", "C22_SliceLoop", "C22_BatchProgress", "C22_SortStablePerm", "C22_UniqueFirst",
         "C22_GroupByPartition", "C22_MinMaxExtremal", "C22_SelectRejectComplement", "C22_ReverseFirstLast"]
+
+
+CALL_INVS = ["C22_HistoryFree", "C22_ResultFresh", "C22_MutationLocal", "C22_DefaultKindObservable"]
 
 
 def mc_cfg(dom, maxlen, attr, loops, fill_always=False, maxn=4):
@@ -76,8 +79,18 @@ def model_check(tier):
         return core.run_tlc(PID, "SeqFiltersMC", mc_cfg("DomStrs", 2, "AttrNone", True, fill_always=True),
                             name="mc_selftest", workers=1, timeout=600, heap="1g")
 
+    def calls(name, cache_by_eq=False, list_aliases=False):
+        # spec/SeqCalls.tla: sequences of calls on one environment with an object heap
+        cfg = ("CONSTANTS\n  MaxCalls = 3\n"
+               f"  CacheByEq = {'TRUE' if cache_by_eq else 'FALSE'}\n"
+               f"  ListAliases = {'TRUE' if list_aliases else 'FALSE'}\n"
+               "SPECIFICATION Spec\n" + "".join(f"INVARIANT {i}\n" for i in CALL_INVS))
+        return core.run_tlc(PID, "SeqCalls", cfg, name=name, workers=1, timeout=600, heap="1g")
+
     with ThreadPoolExecutor(max_workers=8) as ex:
         fself = ex.submit(selftest)
+        fcalls = [ex.submit(calls, "mc_calls"), ex.submit(calls, "mc_calls_self_cache", cache_by_eq=True),
+                  ex.submit(calls, "mc_calls_self_alias", list_aliases=True)]
         fcov = None if quick else ex.submit(cov)
         for (name, dom, ml, attr, loops), r in ex.map(one, runs):
             done.append((r, f"SeqFiltersMC {dom} len<={ml} attr={attr}"))
@@ -86,6 +99,15 @@ def model_check(tier):
         rs = fself.result()
         if fcov is not None:
             rcov = fcov.result()
+    rc, rc_cache, rc_alias = [f.result() for f in fcalls]
+    done.append((rc, "SeqCalls MaxCalls=3 (history-free results, fresh list results)"))
+    extra["selftest_getter_cache_by_eq_rejected_by_TLC"] = "C22_HistoryFree" in rc_cache.invariant_violated
+    extra["selftest_list_aliases_rejected_by_TLC"] = bool(
+        {"C22_ResultFresh", "C22_MutationLocal"} & set(rc_alias.invariant_violated))
+    if not extra["selftest_getter_cache_by_eq_rejected_by_TLC"]:
+        raise core.MachineryError("self-test failed: CacheByEq=TRUE did not violate C22_HistoryFree")
+    if not extra["selftest_list_aliases_rejected_by_TLC"]:
+        raise core.MachineryError("self-test failed: ListAliases=TRUE did not violate C22_ResultFresh / C22_MutationLocal")
     r = rcov
     _, edges, _ = core.parse_dot(r.dir / "graph.dot")
     labels = {core.parse_label(e[2])[0] for e in edges}
@@ -316,6 +338,26 @@ def gen_cases(tier, seed):
         add(case("map", xs, {"attr": "x", "dflt": None}, "xs|map(attribute=attr)",
                  kw={"attribute": "attr"}, lazy=True))
 
+    # ---- sequences of calls on one environment whose `default` arguments are different values
+    # that Python's == / hash identify (1 / True, 0 / False, 'D' / Markup('D')): consecutive cases
+    # run back to back in one process on the same two environments; the contract is a function
+    # of the arguments of the *current* call (spec/SeqCalls.tla: C22_HistoryFree)
+    from markupsafe import Markup
+    twins = [(1, True), (False, 0), ("D", Markup("D")), (Markup("e"), "e"), (True, 1), (0, False)]
+    dom_d = recs_dict()[:3] + holes
+    for xs in sample(seqs(dom_d, 3, 1), 24 if quick else 120):
+        for k, (d1, d2) in enumerate(twins):
+            attr = ("x", "w", "x", "w", "v.w", "x.z")[k]      # one getter per (attribute, twin pair)
+            for dflt in (d1, d2, d1):
+                add(case("map", xs, {"attr": attr, "dflt": dflt}, "xs|map(attribute=attr, default=dflt)",
+                         kw={"attribute": "attr", "default": "dflt"}, lazy=True))
+    for xs in sample(seqs(dom_d, 3, 1), 24 if quick else 120):
+        for attr, (d1, d2) in (("x", twins[2]), ("w", twins[3])):     # string keys only (sortable)
+            for cs in (False, True):
+                for dflt in (d1, d2, d1):
+                    add(case("groupby", xs, {"attr": attr, "dflt": dflt, "cs": cs},
+                             "xs|groupby(attr, dflt, cs)", pos=["attr", "dflt", "cs"]))
+
     # ---- select / reject
     int_tests = [("", None), ("odd", None), ("even", None), ("divisibleby", 2), ("eq", 1), ("equalto", 2),
                  ("==", 0), ("ne", 1), ("lt", 1), ("lessthan", 2), ("gt", 1), ("greaterthan", 0), (">", 1),
@@ -392,7 +434,7 @@ EXCLUDED = [
     "missing attributes as sort / groupby keys without a default",
     "float items (sum / sort / join print floats)",
     "joining with autoescape on (C24)",
-    "Python-level type of the result container (list vs tuple vs iterator): results are compared after materialisation",
+    "Python-level type of the result container (list vs tuple vs iterator): results are compared after materialisation (identity of list results: list / sort / dictsort only)",
 ]
 
 
@@ -432,8 +474,24 @@ def modes_of(drv, c):
     return [allm[i] for i in sorted(idx)]
 
 
+PROBE = "<probe>"
+
+
+def observe_obj(fn):
+    """Like fu.observe, but also hands back the result object itself."""
+    try:
+        v = fu.materialize(fn())
+    except core.MachineryError:
+        raise
+    except Exception as e:  # noqa
+        return {"t": "x", "v": type(e).__name__}, None
+    return fu.enc(v), v
+
+
 def run_mode(drv, c, envk, via, kind):
-    """One invocation of the real filter; returns the observation (out, inp2, args2)."""
+    """One invocation of the real filter; returns the observation (out, inp2, args2, x).
+    x (only when the result object is a Python list, i.e. mutable): `alias` = the result IS the
+    object that was passed in, `inp3` = the input after appending a probe item to the result."""
     inp = fu.fresh(c["inp"])
     args = fu.fresh(c["args"])
     value = fu.as_kind(inp, kind)
@@ -442,12 +500,18 @@ def run_mode(drv, c, envk, via, kind):
     variables["xs"] = value
     if via == "tmpl":
         expr = c["tmpl"] + ("|list" if c["lazy"] else "")
-        out = fu.observe(lambda: drv.via_template(envk, expr, variables))
+        out, obj = observe_obj(lambda: drv.via_template(envk, expr, variables))
     else:
         pos = [variables[n] for n in c["pos"]]
         kw = {k: variables[n] for k, n in c["kw"].items()}
-        out = fu.observe(lambda: drv.via_call(envk, c["f"], value, pos, kw))
-    return out, fu.enc(inp), {k: fu.enc(v) for k, v in args.items()}
+        out, obj = observe_obj(lambda: drv.via_call(envk, c["f"], value, pos, kw))
+    inp2, args2 = fu.enc(inp), {k: fu.enc(v) for k, v in args.items()}
+    x = {}
+    if type(obj) is list:
+        x["alias"] = fu.enc(obj is value)
+        obj.append(PROBE)
+        x["inp3"] = fu.enc(inp)
+    return out, inp2, args2, x
 
 
 def observe_case(c):
@@ -458,13 +522,13 @@ def observe_case(c):
     groups = {}
     nruns = 0
     for envk, via, kind in modes_of(drv, c):
-        out, inp2, args2 = run_mode(drv, c, envk, via, kind)
+        out, inp2, args2, x = run_mode(drv, c, envk, via, kind)
         nruns += 1
-        key = json.dumps([out, inp2, args2], sort_keys=True)
+        key = json.dumps([out, inp2, args2, x], sort_keys=True)
         g = groups.get(key)
         if g is None:
             g = groups[key] = {"f": c["f"], "name": c["name"], "inp": inp_e, "args": args_e, "out": out,
-                               "inp2": inp2, "args2": args2, "modes": [],
+                               "inp2": inp2, "args2": args2, "x": x, "modes": [],
                                "how": {"tmpl": c["tmpl"], "pos": c["pos"], "kw": c["kw"], "lazy": c["lazy"]}}
         g["modes"].append(f"{envk}/{via}/{kind}")
     return list(groups.values()), nruns
@@ -516,7 +580,10 @@ def report(ck, rejected):
         args = {k: fu.show(v) for k, v in rec["args"].items()}
         what = (f"{rec['f']}({'' if not rec['name'] else rec['name'] + '; '}{args}) on {fu.show(rec['inp'])} "
                 f"[{', '.join(rec['modes'][:4])}{'...' if len(rec['modes']) > 4 else ''}]: ")
-        if why == "args-modified":
+        if why == "result-aliases-input":
+            what += (f"the result is not a new list: result is the input object = {rec['x']['alias']['v']}, input after "
+                     f"appending {PROBE!r} to the result = {fu.show(rec['x']['inp3'])}")
+        elif why == "args-modified":
             what += (f"arguments modified: input after = {fu.show(rec['inp2'])}, args after = "
                      f"{ {k: fu.show(v) for k, v in rec['args2'].items()} }")
         else:
